@@ -7,7 +7,7 @@
     anchor (what the v5/v6 wire format can express). *)
 From V.Lib Require Import Base Hex.
 From V.Gen Require Import C04Consts.
-From V.C04 Require Import Model Spec SpecEq Corr Wf Enc Proofs Proofs2.
+From V.C04 Require Import Model Spec SpecEq DigEq Corr Wf Enc Proofs Proofs2 SigIff Bridge.
 Local Open Scope N_scope.
 
 (** Equal txid pre-images: equal effecting data (header, every input, output, value, note
@@ -61,6 +61,17 @@ Theorem C04_shielded_sighash_injective_on_effects : forall t t' c c' d,
   wf_tx t = true -> wf_tx t' = true ->
   sighash_tree t c Shielded = Some d -> sighash_tree t' c' Shielded = Some d -> effects t = effects t'.
 Proof. exact shielded_sighash_injective. Qed.
+
+(** A signature hash commits to exactly the data it must cover: for every signing context
+    (shielded or transparent input, any hash type, coinbase / no inputs / no transparent bundle
+    included) the pre-image trees are equal if and only if the views ([Spec.sig_view]: effecting
+    data outside the transparent bundle, hash type, inputs and coins unless ANYONECANPAY, the
+    outputs the hash type covers, the signed input with its coin's value and scriptPubKey) are. *)
+Theorem C04_sighash_tree_iff_view : forall t t' c c' i i' d d',
+  wf_tx t = true -> wf_tx t' = true -> Forall wf_coin_p c -> Forall wf_coin_p c' -> wf_input i -> wf_input i' ->
+  sighash_tree t c i = Some d -> sighash_tree t' c' i' = Some d' ->
+  (d = d' <-> sig_view t c i = sig_view t' c' i').
+Proof. exact sighash_iff. Qed.
 
 (** A transparent signature hash commits to the hash type, the value and script of the coin
     being spent, the outpoint and sequence of the input being signed, the outputs the hash type
@@ -126,6 +137,14 @@ Theorem C04_effects_eqb_spec : forall a b, effects_eqb a b = true <-> effects a 
 Proof. exact effects_eqb_spec. Qed.
 Theorem C04_sview_eqb_spec : forall a b, sview_eqb a b = true <-> a = b.
 Proof. exact sview_eqb_spec. Qed.
+
+(** Bridge: on a well-formed v5/v6 case, agreement of the implementation with the model
+    ([run_case]: digests = evaluated trees; for a mutation pair, digest equality = pre-image
+    equality) implies the property evaluated on the implementation's outcome ([prop_case]). *)
+Theorem C04_bridge : forall c, modelled c = true -> wf_case c = true -> run_case c = true -> prop_case c = true.
+Proof. exact bridge. Qed.
+Theorem C04_dig_eqb_spec : forall a b, dig_eqb a b = true <-> a = b.
+Proof. exact dig_eqb_spec. Qed.
 
 (** The cached evaluation used by the correspondence is the evaluation of the tree. *)
 Theorem C04_eval_txid_cached : forall t, eval (txid_from t (eval_parts (parts_of t))) = eval (txid_tree t).
